@@ -27,6 +27,11 @@
 // local sources
 #include "dbgroup/thread/common.hpp"
 
+#ifdef CPP_UTILITY_VERIF
+// verification hook (off by default): the harness chooses the probe start position
+extern "C" auto cpp_utility_verif_thread_hash() -> size_t;
+#endif
+
 namespace dbgroup::thread
 {
 namespace
@@ -69,6 +74,9 @@ IDManager::GetHeartBeater()  //
   thread_local HeartBeater hb{};
   if (!hb.HasID()) {
     auto id = std::hash<std::thread::id>{}(std::this_thread::get_id()) % kMaxThreadNum;
+#ifdef CPP_UTILITY_VERIF
+    id = cpp_utility_verif_thread_hash() % kMaxThreadNum;
+#endif
     do {
       if (++id >= kMaxThreadNum) {
         id = 0;
